@@ -246,6 +246,38 @@ fn option_sequences(max_len: usize) -> Acc {
 
 /// Long sentences: n primaries joined by one operator spelling (or by juxtaposition), and the
 /// same under k-fold negation / parentheses; the reference tree is the left fold.
+/// The answer for a word sequence must not depend on what the thread parsed before: every ordered
+/// pair of sequences of length 0..2 (and blank-only texts), the second parsed right after the
+/// first on a fresh thread, against the answer on a fresh thread (which the sweep has compared
+/// with the grammar).
+fn histories() -> Acc {
+    let mut inputs: Vec<String> = vec!["".into(), " ".into(), "\t".into()];
+    let mut buf = vec![];
+    for len in 1..=2usize {
+        for i in 0..(WORDS11.len() as u64).pow(len as u32) {
+            seq_at(&WORDS11, len, i, &mut buf);
+            inputs.push(buf.join(" "));
+        }
+    }
+    for s in ["-depth", "-depth -true", "-name a -o -name b -print", "( -true , -false ) -print", "-threads 3 -false"] {
+        inputs.push(s.into());
+    }
+    let mut acc = Acc::new();
+    let n = inputs.len() as u64;
+    acc.states += n * n;
+    acc.transitions += 2 * n * n;
+    acc.validated += n * n;
+    acc.count("history_pairs", n * n);
+    for (i, j, after, alone) in crate::subject::parse_history_pairs(&inputs) {
+        acc.violate(Violation::new(
+            "C01:answer-depends-on-the-previous-parse",
+            format!("parse({:?}) right after parse({:?}) on the same thread answers {after}; on a fresh thread it answers {alone}", inputs[j], inputs[i]),
+            json!({"kind": "history", "first": inputs[i], "second": inputs[j]}),
+        ));
+    }
+    acc
+}
+
 fn long_sentences() -> Acc {
     let ns: Vec<usize> = (2..=340).chain([400, 511, 512, 513, 600]).collect();
     let joins: [Option<&str>; 6] = [None, Some("-a"), Some("-and"), Some("-o"), Some("-or"), Some(",")];
@@ -367,6 +399,7 @@ pub fn run(ctx: &Ctx) -> i32 {
         }
     }
     acc = acc.merge(long_sentences());
+    acc = acc.merge(histories());
     acc = acc.merge(option_sequences(ctx.tier.pick(5, 6)));
     let mut bound = format!("all word sequences of length 1..{n11} over {} words; all sequences up to length {} containing the option word -depth (text-level reference); chains of 2..20 and of 31..600 primaries (every size in the range) under each operator spelling and juxtaposition, within 4 KiB; 1..64-fold negation and parentheses", WORDS11.len(), ctx.tier.pick(5, 6));
     if ctx.tier == Tier::Thorough {
@@ -393,6 +426,13 @@ pub fn run(ctx: &Ctx) -> i32 {
 }
 
 pub fn replay(w: &Value) -> Vec<Violation> {
+    if w["kind"] == "history" {
+        let inputs = vec![w["first"].as_str().unwrap_or("").to_string(), w["second"].as_str().unwrap_or("").to_string()];
+        return crate::subject::parse_history_pairs(&inputs)
+            .into_iter()
+            .map(|(i, j, after, alone)| Violation::new("C01:answer-depends-on-the-previous-parse", format!("parse({:?}) after parse({:?}): {after} vs {alone}", inputs[j], inputs[i]), w.clone()))
+            .collect();
+    }
     if w["kind"] == "option-words" {
         // re-run the single input through the same comparison
         let input = w["input"].as_str().unwrap_or("").to_string();
